@@ -69,7 +69,9 @@ class Ctx:
         """Runs TLC; returns (returncode, path of the output file)."""
         d = self._specdir(sub)
         out = os.path.join(d, "tlc_%s.out" % cfg.replace(".cfg", ""))
-        cmd = ["java", "-XX:+UseParallelGC"]
+        jtmp = os.path.join(d, "jtmp")          # (TLC leaves a tlc-<n> directory per run in java.io.tmpdir: keep them out of /tmp)
+        os.makedirs(jtmp, exist_ok=True)
+        cmd = ["java", "-XX:+UseParallelGC", "-Djava.io.tmpdir=" + jtmp]
         cmd.append("-Xmx" + (heap or "8g"))
         cmd += ["-Xss64m", "-cp", "/opt/veriftools/tla/tla2tools.jar:/opt/veriftools/tla/CommunityModules-deps.jar",
                 "tlc2.TLC", "-workers", str(workers), "-metadir", os.path.join(d, "meta_" + cfg), "-noGenerateSpecTE",
@@ -84,6 +86,7 @@ class Ctx:
                 raise Inconclusive("TLC timeout after %ds: %s %s" % (timeout, module, cfg))
         log("  tlc %s %s: rc=%d %.1fs" % (module, cfg, p.returncode, time.time() - t))
         shutil.rmtree(os.path.join(d, "meta_" + cfg), ignore_errors=True)
+        shutil.rmtree(jtmp, ignore_errors=True)
         return p.returncode, out
 
     def model_check(self, module, cfg, expect_violations=(), **kw):
@@ -369,8 +372,31 @@ class Ctx:
         os.makedirs(os.path.join(VERIF, "evidence"), exist_ok=True)
         with open(os.path.join(VERIF, "evidence", self.id + ".json"), "w") as f:
             json.dump(ev, f, indent=1)
+        self.prune()
         log("%s %s: %s in %.0fs" % (self.id, self.tier, "VIOLATED" if fresh else "held on everything explored", time.time() - self.t0))
         return 1 if fresh else 0
+
+    def prune(self):
+        """Disk space is limited: a thorough tier leaves gigabytes of emitted scenarios, traces and TLC state files behind (all
+        twenty in a row filled an 84 GB disk). Once the verdict and the evidence are written only the replay files (small) are
+        needed any more; everything else under the work directory that is larger than 256 KB is removed, as are TLC's state
+        directories. VERIF_KEEP_WORK=1 keeps everything (debugging)."""
+        if os.environ.get("VERIF_KEEP_WORK"):
+            return
+        for root, dirs, files in os.walk(self.work, topdown=True):
+            for d in list(dirs):
+                if d in ("states",) or d.startswith("tlc-"):
+                    shutil.rmtree(os.path.join(root, d), ignore_errors=True)
+                    dirs.remove(d)
+            if os.path.basename(root) == "replay":
+                continue
+            for fn in files:
+                fp = os.path.join(root, fn)
+                try:
+                    if os.path.getsize(fp) > 256 * 1024:
+                        os.remove(fp)
+                except OSError:
+                    pass
 
 
 def hist_features(h):
